@@ -1,6 +1,6 @@
 /-
 Line protocol for `Model/PagePercent.lean`:
-  respct <isPage> <sizing: content|padding|border> <cbW> <cbH>
+  respct <isPage> <sizing: content|padding|border> <cbW> <cbH | auto>
          (ml mr mt mb pl pr pt pb width height minW minH)   -- each `auto` | q | (pct q)
          (maxW maxH)                                         -- each `inf` | q | (pct q)
          (bt br bb bl)
@@ -43,6 +43,15 @@ def showUsed (u : Used) : String :=
 
 def handle (cmd : String) (args : List Sx) : Option String :=
   match cmd, args with
+  | "respct", [isPage, sz, cbW, .atom "auto", .list dims, .list maxs, .list borders] => do
+    let s ← cstyle? (← sizing? sz) dims maxs borders
+    let u := resolvePercentagesAutoHeight (← isPage.bool?) s (← cbW.rat?)
+    let mx := match u.maxH with | .inf => "inf" | .num v => showRat v | .nan => "nan"
+    let b := u.base
+    pure (s!"({showLen b.ml} {showLen b.mr} {showLen b.mt} {showLen b.mb}) " ++
+      s!"({showLen b.pl} {showLen b.pr} {showLen b.pt} {showLen b.pb}) ({showLen b.width} {showLen b.height}) " ++
+      s!"({showRat b.minW} {showRat b.minH} {showMax b.maxW} {mx}) " ++
+      s!"({showRat b.bt} {showRat b.br} {showRat b.bb} {showRat b.bl})")
   | "respct", [isPage, sz, cbW, cbH, .list dims, .list maxs, .list borders] => do
     let s ← cstyle? (← sizing? sz) dims maxs borders
     pure (showUsed (resolvePercentages (← isPage.bool?) s (← cbW.rat?) (← cbH.rat?)))
